@@ -18,7 +18,8 @@
 (* behaves in one of four ways towards each of the five state containers   *)
 (* (`beh`, chosen in Init), and the programme is either constructed with a *)
 (* starting state or obtains it from its InitializationOperator            *)
-(* (`preinit`); the constant EMPTY says which of the five start containers *)
+(* (`preinit`) with a deadline `t_max` from TMAXSET that only travels to    *)
+(* the calls; the constant EMPTY says which of the five start containers *)
 (* are empty dicts (initial-state alphabet).                                *)
 (* The data part is an abstract heap: per container the edit               *)
 (* history of the working copy (dict level `outer`, inner-object level     *)
@@ -52,6 +53,10 @@ CONSTANTS NREP,      \* number of replicates            (Nat)
           PSELBEH,   \* behaviours allowed for the parent-selection operator
                      \* (a subset of Behs; only used to split one constant
                      \*  assignment over several TLC runs)
+          TMAXSET,   \* configuration: the deadlines t_max the programme may be
+                     \* constructed with (a non-empty set of Nat).  t_max is only
+                     \* handed on to operators and log calls; the protocol itself
+                     \* never consults it
           EMPTY      \* initial state: the start containers that are EMPTY dicts
                      \* (a subset of Cont).  An empty dict is a valid, given start
                      \* container: it has no inner object that could be shared,
@@ -68,10 +73,12 @@ MixedMap == [genome |-> "pure", geno |-> "inplace", pheno |-> "alias",
 ASSUME /\ NREP \in Nat /\ NGEN \in Nat /\ LOGINIT \in BOOLEAN
        /\ PSELBEH \subseteq Behs /\ PSELBEH # {}
        /\ EMPTY \subseteq {"genome", "geno", "pheno", "bval", "gmod"}
+       /\ TMAXSET \subseteq Nat /\ TMAXSET # {}
        /\ DOMAIN MixedMap = Cont
 
 VARIABLES beh,       \* [Ops -> Behs]   environment: behaviour of each operator
           preinit,   \* BOOLEAN         environment: start state given to the constructor
+          t_max,     \* Nat             configuration: the programme's deadline, handed to every call
           pc,        \* last action performed
           inited,    \* the programme has a stored starting state
           rep,       \* logbook replicate counter
@@ -84,7 +91,7 @@ VARIABLES beh,       \* [Ops -> Behs]   environment: behaviour of each operator
           nlog,      \* ghost: log calls in the current replicate
           nreset     \* ghost: resets performed
 
-vars == <<beh, preinit, pc, inited, rep, gen, t_cur, work, start, mcfg, ncall, nlog, nreset>>
+vars == <<beh, preinit, t_max, pc, inited, rep, gen, t_cur, work, start, mcfg, ncall, nlog, nreset>>
 
 \* an edit token names the operator and the time index it was given: 10 * t_cur + code
 Code       == [psel |-> 1, mate |-> 2, eval |-> 3, ssel |-> 4]
@@ -103,6 +110,7 @@ Init ==
     /\ beh \in [Ops -> Behs]
     /\ beh["psel"] \in PSELBEH
     /\ preinit \in BOOLEAN
+    /\ t_max \in TMAXSET
     /\ pc = "Idle"
     /\ inited = preinit
     /\ rep = 0 /\ gen = 0 /\ t_cur = 0
@@ -131,7 +139,7 @@ Call(op) ==
 Log == /\ nlog' = nlog + 1
        /\ UNCHANGED <<work, start, ncall>>
 
-Env == UNCHANGED <<beh, preinit>>
+Env == UNCHANGED <<beh, preinit, t_max>>
 
 AtRepBoundary == \/ pc \in {"Idle", "Initialize"}
                  \/ pc = "Tick" /\ gen = NGEN
@@ -233,6 +241,7 @@ TokSeq(s) == \A i \in 1..Len(s) : \E o \in Ops, t \in 0..(NGEN + 1) : s[i] = 10 
 
 TypeOK ==
     /\ beh \in [Ops -> Behs] /\ preinit \in BOOLEAN /\ inited \in BOOLEAN
+    /\ t_max \in TMAXSET
     /\ pc \in AllPcs
     /\ rep \in 0..NREP /\ gen \in 0..NGEN /\ t_cur \in 0..(NGEN + 1)
     /\ mcfg \in 0..(NGEN + 1)
@@ -248,6 +257,12 @@ TimeIndex ==
     /\ pc \in InitPcs => t_cur = 0 /\ gen = 0
     /\ pc \in GenPcs \cup {"Tick"} => t_cur = gen + 1
     /\ pc \in GenPcs => gen < NGEN
+
+\* the time index is independent of the deadline t_max: "starts at zero and grows by one
+\* per cycle" -- it is not clamped, wrapped or otherwise bounded by t_max and runs past it
+TimeIgnoresDeadline ==
+    /\ pc \in GenPcs \cup {"Tick"} => (gen >= t_max => t_cur > t_max)
+    /\ pc \in InitPcs => t_cur = 0
 
 \* every operator exactly once per generation, in the order psel, mate, eval, ssel;
 \* the evaluation operator once more at the start of the replicate
@@ -303,7 +318,7 @@ GivenStateIsKept ==
 \* action-level properties: environment fixed; t_cur only moves by +1 or back to 0;
 \* rep only moves by +1 and only together with a reset
 StepProps ==
-    [][ /\ beh' = beh /\ preinit' = preinit
+    [][ /\ beh' = beh /\ preinit' = preinit /\ t_max' = t_max
         /\ t_cur' \in {t_cur, t_cur + 1, 0}
         /\ rep' \in {rep, rep + 1}
         /\ (rep' = rep + 1) <=> (pc' = "ResetRep")
